@@ -83,6 +83,7 @@ type c13Case struct {
 	Disp     *c13DispCase `json:"disp,omitempty"`    // kind display (c13display.go)
 	Load     *c13LoadCase `json:"load,omitempty"`    // kinds pushers | walk | walksession (c13load.go)
 	Pushers  int          `json:"npushers,omitempty"` // stress: the lines are pushed by this many goroutines (0 = one)
+	Rel      *c13RelCase  `json:"rel,omitempty"`      // kind reload (c13reload.go)
 }
 
 var c13Once sync.Once
@@ -1470,6 +1471,8 @@ func c13Run(c *Ctx, cs c13Case) {
 		c13Walk(c, cs)
 	case "walksession":
 		c13WalkSession(c, cs)
+	case "reload":
+		c13Reload(c, cs)
 	}
 }
 
@@ -1484,6 +1487,9 @@ func runC13(c *Ctx) {
 		"display sessions of the real fzf in a pty (records narrower and wider than the window, non-ASCII, multi-line, tabs, ANSI; wrap/hscroll/ellipsis/tabstop/gap/layout/" +
 		"pointer/marker/preview/header-lines/tail options; slow and fast input; UI actions, resizes, typed and changed queries; every reported item, every listed match " +
 		"and the accepted output compared with the records as they were read); " +
+		"reload sessions of the real fzf in a pty (the input replaced 1..4 times by a loader that writes in bursts released by the harness and stays alive between them; reload alone, " +
+		"with a query change in one action list, through a change:reload binding, reload-sync, while the previous loader runs; first bursts that bring the new list to the count of " +
+		"the list it replaces; query changed and changed back, sort toggled between bursts; every plateau judged by the Coq spec published_ok and compared with the coordinator model); " +
 		"non-trivial = a published merger that is a proper non-empty subset of its snapshot (sequences) / more than one snapshot (chunk list) / a cache hit (cache); distinct by JSON of the case"
 	if os.Getenv("VERIF_C13_CHILD") != "" {
 		n := c.N(40, 400)
@@ -1537,6 +1543,8 @@ func runC13(c *Ctx) {
 		for i := range cases {
 			if only == "textmem" {
 				cases[i] = c13GenTextMem(c.Rng)
+			} else if only == "reload" {
+				cases[i] = c13GenReload(c.Rng)
 			} else {
 				cases[i] = c13GenDisplay(c.Rng)
 			}
@@ -1598,6 +1606,12 @@ func runC13(c *Ctx) {
 		}
 		parallel(c, n, func(i int, _ *RNG) { c13Run(c, dispCases[i]) })
 	}
+	// searching while a reloaded input is still being appended (c13reload.go)
+	relT0 := time.Now()
+	gen(c.N(96, 1200), c13GenReload)
+	c.Rep.mu.Lock()
+	c.Rep.Extra["reload_stream_wall_s"] = fmt.Sprintf("%.1f", time.Since(relT0).Seconds())
+	c.Rep.mu.Unlock()
 	ns := c.N(6, 60)
 	for i := 0; i < ns; i++ {
 		c13Stress(c, c13GenStress(c.Rng, 40))
